@@ -222,6 +222,11 @@ func applyTableFault(b []byte, ft fault) ([]byte, error) {
 	switch ft.F {
 	case "EmptyFile":
 		return []byte{}, nil
+	case "BlankLine":
+		if ft.Line < 0 || ft.Line > len(ls) {
+			return nil, errInapplicable
+		}
+		ls = append(ls[:ft.Line], append([][]string{{" \t"}}, ls[ft.Line:]...)...)
 	case "DropLine":
 		if !lineOK(ft.Line) {
 			return nil, errInapplicable
